@@ -21,7 +21,7 @@ def Key.prefixed (k : Key) (p : List String) : Key := { path := p ++ k.path, nam
 mutual
   inductive Node where
     | op (id : Nat) (qubits : List Nat) (mkey : Option Key) (conds : List (Key × Int)) (inverted : Bool)
-    | sub (c : CircOp)
+    | sub (c : CircOp) (conds : List (Key × Int))
   inductive CircOp where
     | mk (body : List (List Node)) (reps : Int) (qmap : List (Nat × Nat)) (kmap : List (String × String))
         (repIds : Option (List String)) (parentPath : List String)
@@ -31,12 +31,21 @@ def assocD [DecidableEq α] (m : List (α × α)) (x : α) : α := ((m.find? (·
 
 def Key.mapName (m : List (String × String)) (k : Key) : Key := { path := k.path, name := assocD m k.name }
 
+/-- a condition before scoping, with the scopes and the chain of circuit-operation instances enclosing the place it was
+written at (a condition put on a whole sub-circuit is written outside of it) -/
+structure RawCond where
+  key : Key
+  index : Int
+  scope : List String := []
+  stamps : List (List Nat × Nat) := []
+  deriving DecidableEq, Repr
+
 /-- an operation of the unrolled body before scoping: conditions still carry the scope they were written in -/
 structure RawOp where
   id : Nat
   qubits : List Nat
   mkey : Option Key
-  conds : List (Key × Int)
+  conds : List RawCond
   inverted : Bool
   scope : List String          -- path of the enclosing scopes, outermost first
   stamps : List (List Nat × Nat) := []   -- (position path of an enclosing loop, iteration index)
@@ -46,8 +55,8 @@ mutual
   /-- does the body contain a measurement (decides whether repetition ids are used as scopes) -/
   def nodeHasMeas : Nat → Node → Bool
     | _, .op _ _ mk _ _ => mk.isSome
-    | 0, .sub _ => false
-    | fuel + 1, .sub (.mk body _ _ _ _ _) => body.flatten.any (nodeHasMeas fuel)
+    | 0, .sub _ _ => false
+    | fuel + 1, .sub (.mk body _ _ _ _ _) _ => body.flatten.any (nodeHasMeas fuel)
 
   /-- raw unrolling: maps applied, scopes recorded, conditions not yet bound.  `pos` is the position path of
   the circuit operation in the syntax tree (it identifies the loop in the iteration stamps). -/
@@ -63,18 +72,23 @@ mutual
         let mapped : List RawOp := inner.map (fun o =>
           { o with qubits := o.qubits.map (assocD qmap),
                    mkey := o.mkey.map (Key.mapName kmap),
-                   conds := o.conds.map (fun (k, i) => (k.mapName kmap, i)),
+                   conds := o.conds.map (fun c => { c with key := c.key.mapName kmap }),
                    inverted := o.inverted != invert })
         let hasMeas := body.flatten.any (nodeHasMeas fuel)
         let inScope (extra : List String) (iter : Nat) : List RawOp :=
-          mapped.map (fun o => { o with scope := parentPath ++ extra ++ o.scope, stamps := (pos, iter) :: o.stamps })
+          mapped.map (fun o => { o with scope := parentPath ++ extra ++ o.scope, stamps := (pos, iter) :: o.stamps,
+                                        conds := o.conds.map (fun c => { c with scope := parentPath ++ extra ++ c.scope, stamps := (pos, iter) :: c.stamps }) })
         match repIds with
         | some ids => if hasMeas then (ids.zipIdx).flatMap (fun (r, k) => inScope [r] k)
                       else (List.range reps.natAbs).flatMap (fun k => inScope [] k)
         | none => (List.range reps.natAbs).flatMap (fun k => inScope [] k)
   def rawNode : Nat → List Nat → Node → List RawOp
-    | _, _, .op id qs mk conds inv => [{ id := id, qubits := qs, mkey := mk, conds := conds, inverted := inv, scope := [] }]
-    | fuel, pos, .sub c => rawCO fuel pos c
+    | _, _, .op id qs mk conds inv =>
+      [{ id := id, qubits := qs, mkey := mk, conds := conds.map (fun (k, i) => { key := k, index := i }), inverted := inv, scope := [] }]
+    -- a classically controlled sub-circuit: every operation it unrolls to carries the outer conditions first
+    -- (`ClassicallyControlledOperation` merges them in front of the operation's own), written in the enclosing body
+    | fuel, pos, .sub c conds =>
+      (rawCO fuel pos c).map (fun o => { o with conds := conds.map (fun (k, i) => ({ key := k, index := i } : RawCond)) ++ o.conds })
 end
 
 structure FlatOp where
@@ -102,8 +116,8 @@ def scopePassS : List (Key × List (List Nat × Nat)) → List RawOp → List Fl
   | _, [] => []
   | measured, o :: os =>
     let mk := o.mkey.map (fun k => k.prefixed o.scope)
-    let vis := (measured.filter (fun m => visible m.2 o.stamps)).map (·.1)
-    let conds := o.conds.map (fun (k, i) => (bindCond o.scope vis k, i))
+    let conds := o.conds.map (fun c =>
+      (bindCond c.scope ((measured.filter (fun m => visible m.2 c.stamps)).map (·.1)) c.key, c.index))
     { id := o.id, qubits := o.qubits, mkey := mk, conds := conds, inverted := o.inverted }
       :: scopePassS (measured ++ (mk.toList.map (fun k => (k, o.stamps)))) os
 
@@ -112,7 +126,7 @@ def scopePass : List Key → List RawOp → List FlatOp
   | _, [] => []
   | measured, o :: os =>
     let mk := o.mkey.map (fun k => k.prefixed o.scope)
-    let conds := o.conds.map (fun (k, i) => (bindCond o.scope measured k, i))
+    let conds := o.conds.map (fun c => (bindCond c.scope measured c.key, c.index))
     { id := o.id, qubits := o.qubits, mkey := mk, conds := conds, inverted := o.inverted }
       :: scopePass (measured ++ mk.toList) os
 
@@ -127,7 +141,7 @@ def coMkeys : Nat → CircOp → List Key
   | fuel + 1, .mk body _ _ kmap repIds parentPath =>
     let inner : List Key := (body.flatten.flatMap (fun n => match n with
       | .op _ _ mk _ _ => mk.toList
-      | .sub c => coMkeys fuel c)).eraseDups
+      | .sub c _ => coMkeys fuel c)).eraseDups
     let withReps := match repIds with
       | some ids => if inner.isEmpty then inner else ids.flatMap (fun r => inner.map (fun (k : Key) => k.prefixed [r]))
       | none => inner
